@@ -190,6 +190,19 @@ MUTANTS = [
     ('reader-short-length-check-dropped', ['C07', 'C08'], R,
      "                if not isinstance(length, int) or length < 0:\n",
      "                if not isinstance(length, int):\n"),
+    ('dom-reader-drops-diff-type', ['C05', 'C06'], DR,
+     "        options.pop('length', None)\n",
+     "        options.pop('length', None)\n        if options.get('type') == 'text':\n            options.pop('type')\n"),
+    ('metadata-not-dict-error-linenum-off', ['C08'], R,
+     """                            'JSON metadata must be a dictionary, not %s'
+                            % type(section['metadata']).__name__,
+                            linenum=linenum)""",
+     """                            'JSON metadata must be a dictionary, not %s'
+                            % type(section['metadata']).__name__,
+                            linenum=linenum + 10 ** 6)"""),
+    ('reader-content-decode-error-escapes', ['C08', 'C07'], R,
+     "            except UnicodeError as e:\n                raise DiffXParseError(",
+     "            except UnicodeTranslateError as e:\n                raise DiffXParseError("),
     ('writer-dos-newline-appended-as-lf', ['C01', 'C02'], W,
      "        if not content.endswith(newline):\n            content += newline\n",
      "        if not content.endswith(newline):\n            content += newline[-1:] if len(newline) == 2 else newline\n"),
